@@ -11,7 +11,7 @@ namespace DI.Tie.C12
 
 open DI.Py DI.Gen
 
-def ends (suffix : String) : Term := Term.app "str(path).endswith" [Term.sym suffix]
+def ends (suffix : String) : Term := Term.app ".endswith" [Term.app "str" [Term.sym "path"], Term.sym suffix]
 def textMode : Term := Term.app "NotIn" [Term.sym "'b'", Term.sym "mode"]
 
 /-- (opener, positional and keyword arguments) of the returned call. -/
@@ -31,16 +31,16 @@ theorem xopen_dispatch_by_suffix (truth : Term → Bool) :
        [Term.sym "path", Term.sym "mode", Term.app "=**" [Term.sym "kwargs"]]) := by
   unfold util_xopen ends
   cases truth (Term.app "NotIn" [Term.sym "'b'", Term.sym "mode"]) <;>
-    cases truth (Term.app "str(path).endswith" [Term.sym "'.bz2'"]) <;>
-    cases truth (Term.app "str(path).endswith" [Term.sym "'.gz'"]) <;>
-    cases truth (Term.app "str(path).endswith" [Term.sym "'.xz'"]) <;> rfl
+    cases truth (Term.app ".endswith" [Term.app "str" [Term.sym "path"], Term.sym "'.bz2'"]) <;>
+    cases truth (Term.app ".endswith" [Term.app "str" [Term.sym "path"], Term.sym "'.gz'"]) <;>
+    cases truth (Term.app ".endswith" [Term.app "str" [Term.sym "path"], Term.sym "'.xz'"]) <;> rfl
 
 theorem xopen_text_default_encoding (truth : Term → Bool) :
     setsEncoding (util_xopen truth) = truth textMode := by
   unfold util_xopen textMode
   cases truth (Term.app "NotIn" [Term.sym "'b'", Term.sym "mode"]) <;>
-    cases truth (Term.app "str(path).endswith" [Term.sym "'.bz2'"]) <;>
-    cases truth (Term.app "str(path).endswith" [Term.sym "'.gz'"]) <;>
-    cases truth (Term.app "str(path).endswith" [Term.sym "'.xz'"]) <;> rfl
+    cases truth (Term.app ".endswith" [Term.app "str" [Term.sym "path"], Term.sym "'.bz2'"]) <;>
+    cases truth (Term.app ".endswith" [Term.app "str" [Term.sym "path"], Term.sym "'.gz'"]) <;>
+    cases truth (Term.app ".endswith" [Term.app "str" [Term.sym "path"], Term.sym "'.xz'"]) <;> rfl
 
 end DI.Tie.C12
